@@ -25,16 +25,16 @@ Fixpoint auth_of (tr : list event) : bool :=
 Fixpoint obs_ok (lockfree : bool) (tr : list event) : bool :=
   match tr with
   | [] => true
-  | EObs _ true held _ _ :: tl =>
+  | EObs _ true held _ :: tl =>
       (if held || lockfree then auth_of tl else true) && obs_ok lockfree tl
   | _ :: tl => obs_ok lockfree tl
   end.
 
 (** a request hands out a secret only after it saw the wallet unlocked, under
-    the mutex, with no password change in its temporary-unlock window *)
+    the mutex *)
 Definition is_good_obs (i : nat) (e : event) : bool :=
   match e with
-  | EObs j true true false _ => Nat.eqb i j
+  | EObs j true true _ => Nat.eqb i j
   | _ => false
   end.
 
@@ -61,19 +61,6 @@ Fixpoint auth_timed (tr : list event) (t : Z) : bool :=
 Fixpoint obs_ok_timed (tr : list event) : bool :=
   match tr with
   | [] => true
-  | EObs _ true _ _ t :: tl => auth_timed tl t && obs_ok_timed tl
+  | EObs _ true _ t :: tl => auth_timed tl t && obs_ok_timed tl
   | _ :: tl => obs_ok_timed tl
-  end.
-
-(** first unjustified observation, oldest first (for finding classification):
-    [Some (held, inwin)] of the oldest bad observation *)
-Fixpoint first_bad_obs (tr : list event) : option (bool * bool) :=
-  match tr with
-  | [] => None
-  | EObs _ true held inwin _ :: tl =>
-      match first_bad_obs tl with
-      | Some x => Some x
-      | None => if auth_of tl then None else Some (held, inwin)
-      end
-  | _ :: tl => first_bad_obs tl
   end.
